@@ -283,6 +283,28 @@ theorem tie_c19_dot_iff (base target : List Nat) (ht : Paths.ordinary target) :
       (r = [46] ↔ Paths.comps target = (Paths.comps base).dropLast) :=
   ⟨_, tie_make_relative_path base target, C19.c19_dot_iff base target ht⟩
 
+/-- `c19_shape` for the code as translated: the returned path is one `..` per base-directory component
+below the longest common prefix followed by exactly the target's components below it. -/
+theorem tie_c19_shape (base target : List Nat)
+    (hne : Paths.comps target ≠ (Paths.comps base).dropLast) :
+    ∃ r, Gen.RsUtils.make_relative_path base target = .ok r ∧
+      Paths.comps r =
+        List.replicate ((Paths.comps base).dropLast.length
+            - C19.lcp (Paths.comps target) (Paths.comps base).dropLast) Paths.DOTDOT
+          ++ (Paths.comps target).drop (C19.lcp (Paths.comps target) (Paths.comps base).dropLast) :=
+  ⟨_, tie_make_relative_path base target, C19.c19_shape base target hne⟩
+
+/-- `c19_nonempty` for the code as translated -/
+theorem tie_c19_nonempty (base target : List Nat) :
+    ∃ r, Gen.RsUtils.make_relative_path base target = .ok r ∧ r ≠ [] :=
+  ⟨_, tie_make_relative_path base target, C19.c19_nonempty base target⟩
+
+/-- `c19_descend` for the code as translated -/
+theorem tie_c19_descend (base target : List Nat) (rest : List (List Nat)) (hr : rest ≠ [])
+    (h : Paths.comps target = (Paths.comps base).dropLast ++ rest) :
+    ∃ r, Gen.RsUtils.make_relative_path base target = .ok r ∧ Paths.comps r = rest :=
+  ⟨_, tie_make_relative_path base target, C19.c19_descend base target rest hr h⟩
+
 -- non-vacuity of the hypothesis: "/foo/bar/baz.map" has ordinary components
 example : Paths.ordinary [47, 102, 111, 111, 47, 98, 97, 114, 47, 98, 97, 122, 46, 109, 97, 112] := by
   simp [Paths.ordinary, Paths.comps, Paths.splitSep, Paths.isSep, Paths.DOT, Paths.DOTDOT]
@@ -306,3 +328,6 @@ open SmVerif.Tie in
 #print axioms tie_c19_resolves
 open SmVerif.Tie in
 #print axioms tie_c19_dot_iff
+#print axioms SmVerif.Tie.tie_c19_shape
+#print axioms SmVerif.Tie.tie_c19_nonempty
+#print axioms SmVerif.Tie.tie_c19_descend
